@@ -807,6 +807,21 @@ func (se *SpecEnv) callSpec(c *ast.CallExpr) Value {
 		return av.Arr
 	case "at":
 		return F.Select(targ(0), targ(1))
+	case "viewof":
+		// viewof(a): the slice a[:] of an array variable, as an identity (same backing object, whole array), for
+		// same(x, viewof(a))
+		pv, ok := se.eval(c.Args[0]).(*PtrV)
+		if !ok || pv.Obj == nil {
+			unsup("viewof: not an addressable array variable")
+		}
+		n := 0
+		switch cv := se.rvalue(se.deref(pv)).(type) {
+		case *AggV:
+			n = len(cv.Elems)
+		default:
+			unsup("viewof of %T", cv)
+		}
+		return &SliceV{Obj: pv.Obj, Path: pv.Path, Off: F.I64(0), Len: F.I64(int64(n)), Cap: F.I64(int64(n))}
 	case "bxor8":
 		// the bitwise exclusive or of two bytes (the term the code's own b0[j] ^ b1[j] on uint8 produces)
 		return F.bitop(OBxor, 8, targ(0), targ(1))
